@@ -224,7 +224,7 @@ def coerce_input_literal(
                 coerced_dict[field.out_name or field_name] = field_value
 
         if type_.is_one_of:
-            if len(field_nodes) != 1 or len(coerced_dict) != 1:
+            if len(value_node.fields) != 1 or len(coerced_dict) != 1:
                 # Invalid: not exactly one key, intentionally return no value.
                 return Undefined
             for field_name, field_node in field_nodes.items():
